@@ -584,13 +584,16 @@ func (d *DistKeyGenerator) ProcessResponses(bundles []*ResponseBundle) (
 	jb *JustificationBundle,
 	err error) {
 
-	if !d.canReceive && d.state != DealPhase {
-		// if we are a old node that will leave
-		err = &PhaseError{
-			DealPhase,
-			d.state,
+	if !d.canReceive {
+		// if we are a old node that will leave: we have dealt, and
+		// ProcessDeals, if it was called, moved us on silently
+		if d.state != DealPhase && d.state != ResponsePhase {
+			err = &PhaseError{
+				DealPhase,
+				d.state,
+			}
+			return nil, nil, err
 		}
-		return nil, nil, err
 	} else if d.state != ResponsePhase {
 		err = &PhaseError{
 			ResponsePhase,
